@@ -225,7 +225,16 @@ def fanout(ctx, ncases):
                          tags={"function": e.name, "variant": "original"})
             # Dataset container
             if accepts_dataset(e) and not e.specific:
-                ds_arrs = {k: xr.Dataset({"v1": v, "v2": v * 1}) for k, v in case.arrays.items()}
+                # the same fields as variable "v1" of a Dataset whose SECOND variable is a different field with its own
+                # missing values: the value attached to v1 must not depend on its neighbour variable
+                def _other(v):
+                    if v.dtype.kind != "f" or v.size < 2:
+                        return v * 1
+                    vals = np.array(v.values, dtype=float)
+                    flat = np.roll(vals.reshape(-1), 1)        # the same value set (stays in the input's domain), other positions
+                    flat[rng.randrange(flat.size)] = np.nan
+                    return v.copy(data=flat.reshape(vals.shape))
+                ds_arrs = {k: xr.Dataset({"v1": v, "v2": _other(v)}) for k, v in case.arrays.items()}
                 out, ex = None, None
                 try:
                     import warnings
